@@ -173,7 +173,7 @@ def pkt_end(table, v, cur, rawlen):
 
 def run(tier, seed, rng):
     ng = 70 if tier == 'quick' else 2500
-    feats = lambda g: dict(seq=True, opt=True, refsel=True, bits=(g % 3 == 0), move=(g % 4 == 0), codegen_opts=(g % 3 == 1))   # a third of the tables mix generated and generic classes
+    feats = lambda g: dict(seq=True, opt=True, refsel=True, bits=(g % 3 == 0), move=(g % 4 == 0), codegen_opts=(g % 3 == 1), opt_rate=4)   # optional fields frequent (their declared defaults too); a third of the tables mix generated and generic classes
     groups = pktprops.make_groups(rng, ng, feats, values_per_class=3 if tier == 'quick' else 5, offsets=(2,), maxcuts=8, flips=4, defaults=False)
     # counts in {-2..3} incl. negative ones: flip the count-bearing bytes (done by the byte flips) and add explicit constants
     records, disagreements = pktcases.run_groups(groups, 'c08')
